@@ -1,6 +1,185 @@
+(* C08 — Abrupt exits run each pending finally and iterator close exactly once, in order.
+   ONLY theorem statements; each is closed by [exact] of a lemma of C08/Proofs.v / C08/ProofsI.v.
+   S = ECMA-262 completion-record semantics of the control fragment (Model.exec, fuelled: every statement
+   quantifies over all fuels and all terminating runs); I = transcription of goja's compiler/VM (Model.compile, vm_step). *)
 From Coq Require Import List Arith ZArith Bool.
 Import ListNotations.
-From Verif.C08 Require Import Model Proofs.
-Theorem update_empty_idem : forall c v, update_empty (update_empty c v) v = update_empty c v.
-Proof. exact Proofs.update_empty_idem. Qed.
-Print Assumptions update_empty_idem.
+From Verif.C08 Require Import Model Proofs ProofsI.
+
+(* ---- S ---------------------------------------------------------------------------------------- *)
+
+(* a finally block marked by a leading event [id] that occurs nowhere else in the statement: in every run of
+   try/catch?/finally, whatever the try/catch part did (normal, break, continue, return, throw), the marker
+   occurs exactly once, after all events of the try/catch part; never when that part died of an uncatchable error *)
+Theorem finally_exactly_once : forall n b hasc c f id sc t C sc',
+  evs_in id b = false -> evs_in id c = false -> evs_in id f = false ->
+  exec (S n) (Try b hasc c true (SCons (Ev id) f)) sc = Some (t, C, sc') ->
+  exists t1 C1 sc1, try_part n b hasc c sc = Some (t1, C1, sc1) /\ ~ In (EEv id) t1 /\
+    ((is_unc C1 = true /\ t = t1 /\ C = C1) \/
+     (is_unc C1 = false /\ exists t2, t = t1 ++ EEv id :: t2 /\ ~ In (EEv id) t2)).
+Proof. exact Proofs.finally_exactly_once. Qed.
+
+(* k nested try/finally statements around ANY core program, each finally marked by a distinct id: for any
+   completion crossing them (whatever each finally block itself does), the markers occur exactly once each,
+   innermost first *)
+Theorem finally_exactly_once_innermost_first : forall fs core n sc t C sc',
+  NoDup (map fst fs) ->
+  clean (map fst fs) core ->
+  (forall i f, In (i, f) fs -> clean (map fst fs) f) ->
+  exec_list n (wrap fs core) None sc = Some (t, C, sc') ->
+  is_unc C = false ->
+  filter (is_marker (map fst fs)) t = map EEv (rev (map fst fs)).
+Proof. exact Proofs.finally_exactly_once_innermost_first. Qed.
+
+Example finally_innermost_first_ex :
+  exec_list 50 (wrap [(1, SNil); (2, SCons (Throw 7) SNil); (3, SNil)] (SCons (Ev 9) (SCons (Return 4) SNil))) None []
+  = Some ([EEv 9; EEv 3; EEv 2; EEv 1], CThrow (VNum 7), []).
+Proof. vm_compute. reflexivity. Qed.
+
+Theorem finally_overrides : forall n b hasc c f sc t C sc',
+  exec (S n) (Try b hasc c true f) sc = Some (t, C, sc') ->
+  exists t1 C1 sc1, try_part n b hasc c sc = Some (t1, C1, sc1) /\
+    (is_unc C1 = false ->
+     exists tf F, exec_list n f None sc1 = Some (tf, F, sc') /\
+       (is_normal F = true -> C = update_empty C1 (Some VUndef)) /\
+       (is_normal F = false -> C = update_empty F (Some VUndef))).
+Proof. exact Proofs.finally_overrides. Qed.
+
+Example finally_overrides_ex :
+  exec 20 (Try (SCons (Return 1) SNil) false SNil true (SCons (Break (Some 3)) SNil)) []
+  = Some ([], CBreak (Some 3) (Some VUndef), []).
+Proof. vm_compute. reflexivity. Qed.
+
+(* for-of: either the loop ended by exhaustion / a throwing next() — the trace ends with that next() call and
+   return() was never called — or it was left by an abrupt completion of its body, and then return() was called
+   exactly once (if there is a return method and the completion is not an uncatchable error) *)
+Theorem iterator_closed_once : forall n l it body V idx sc t c sc',
+  exec_forof n l it body V idx sc = Some (t, c, sc') -> it_in (it_id it) body = false ->
+  (exists t0, t = t0 ++ [ENext (it_id it)] /\ cnt_ret (it_id it) t = 0 /\
+              exists v, c = CNormal (Some v) \/ c = CThrow v)
+  \/
+  (exists t0 tb cb m scb V',
+      t = t0 ++ ENext (it_id it) :: tb ++ fst (iter_close it (update_empty cb (Some V'))) /\
+      exec m body scb = Some (tb, cb, sc') /\ loop_continues cb l = false /\
+      c = loop_exit l (snd (iter_close it (update_empty cb (Some V')))) /\
+      cnt_ret (it_id it) t =
+        if is_unc cb then 0 else match it_ret it with RetMissing => 0 | _ => 1 end).
+Proof. exact Proofs.iterator_closed_once. Qed.
+
+Example iterator_closed_once_ex :
+  exec 30 (ForOf None (mkIter 7 3 None RetOk) (Block (SCons (Ev 1) (SCons (If (Break None) (Ev 2)) SNil)))) [false; true]
+  = Some ([ENext 7; EEv 1; EEv 2; ENext 7; EEv 1; EReturn 7], CNormal (Some VUndef), []).
+Proof. vm_compute. reflexivity. Qed.
+
+Theorem completion_value_rules :
+  (forall n s r acc sc,
+     exec_list (S n) (SCons s r) acc sc =
+     match exec n s sc with
+     | None => None
+     | Some (t, c, sc1) =>
+         match update_empty c acc with
+         | CNormal v => match exec_list n r v sc1 with
+                        | Some (t2, c2, sc2) => Some (t ++ t2, c2, sc2) | None => None end
+         | c' => Some (t, c', sc1)
+         end
+     end) /\
+  (forall n s1 s2 sc t c sc', exec n (If s1 s2) sc = Some (t, c, sc') ->
+     match c with CNormal None | CBreak _ None | CContinue _ None => False | _ => True end) /\
+  (forall n b hasc cc hasf f sc t c sc', exec n (Try b hasc cc hasf f) sc = Some (t, c, sc') ->
+     is_unc c = false ->
+     match c with CNormal None | CBreak _ None | CContinue _ None => False | _ => True end) /\
+  (forall n k l body V skip sc t c sc', exec_loop n k l body V skip sc = Some (t, c, sc') ->
+     match c with CNormal None | CBreak _ None | CContinue _ None => False | _ => True end).
+Proof. exact Proofs.completion_value_rules. Qed.
+
+Theorem uncatchable_runs_nothing_S :
+  (forall n s r acc sc t p sc1, exec n s sc = Some (t, CUnc p, sc1) ->
+     exec_list (S n) (SCons s r) acc sc = Some (t, CUnc p, sc1)) /\
+  (forall n b hasc c hasf f sc t p sc1, exec_list n b None sc = Some (t, CUnc p, sc1) ->
+     exec (S n) (Try b hasc c hasf f) sc = Some (t, CUnc p, sc1)) /\
+  (forall n l it body V idx sc t p sc1,
+     (match it_throw it with Some (j, _) => Nat.eqb j idx | None => false end) = false ->
+     Nat.leb (it_len it) idx = false ->
+     exec n body sc = Some (t, CUnc p, sc1) ->
+     exec_forof (S n) l it body V idx sc = Some (ENext (it_id it) :: t, CUnc p, sc1)).
+Proof. exact Proofs.uncatchable_runs_nothing_S. Qed.
+
+(* every event of a run is syntactically present in the program (used by the counting theorems) *)
+Theorem trace_in_syntax : forall n s sc t c sc', exec n s sc = Some (t, c, sc') -> forall ev, In ev t -> ok_ev ev s.
+Proof. intro n. exact (proj1 (Proofs.trace_in_syntax n)). Qed.
+
+(* ---- I ---------------------------------------------------------------------------------------- *)
+(* compile_control_correct (compile s on the VM = S) is NOT proved: on the current tree it is false
+   (the witnesses below: C08-N2, C08-N4, C08-N5, C08-N6, F12), and the carved-out partial statement was not finished in this round. *)
+
+(* regression of the repaired finding C08-N1 (enterFinally now disarms the catch) *)
+Theorem finally_throw_not_caught_by_own_catch :
+  run_I 1000 true w_n1 [] = run_S 100 true w_n1 [] /\
+  run_S 100 true w_n1 [] = ([EEv 1; EEv 3], OThrow (VNum 9)).
+Proof. exact ProofsI.finally_throw_not_caught_by_own_catch. Qed.
+
+Theorem pending_return_value_refuted :
+  exists prog sc, run_S 100 true prog sc = ([], OValue (VNum 1)) /\ run_I 1000 true prog sc = ([], OValue (VNum 2)).
+Proof. exact ProofsI.pending_return_value_refuted. Qed.
+
+Theorem finally_nested_break_value_refuted :
+  exists prog sc, run_S 100 false prog sc = ([], OValue VUndef) /\ run_I 1000 false prog sc = ([], OValue (VNum 2)).
+Proof. exact ProofsI.finally_nested_break_value_refuted. Qed.
+
+Theorem caught_throw_stale_value_refuted :
+  exists prog sc, run_S 100 false prog sc = ([], OValue VUndef) /\ run_I 1000 false prog sc = ([], OValue (VNum 4)).
+Proof. exact ProofsI.caught_throw_stale_value_refuted. Qed.
+
+Theorem nested_branch_loses_value_refuted :
+  exists prog sc, run_S 100 false prog sc = ([], OValue (VNum 1)) /\ run_I 1000 false prog sc = ([], OValue VUndef).
+Proof. exact ProofsI.nested_branch_loses_value_refuted. Qed.
+
+Theorem uncatchable_runs_nothing_refuted :
+  exists prog sc, run_S 100 true prog sc = ([ENext 7; EEv 5], OUnc PStackOverflow) /\
+                  run_I 1000 true prog sc = ([ENext 7; EEv 5; EReturn 7], OUnc PStackOverflow).
+Proof. exact ProofsI.uncatchable_runs_nothing_refuted. Qed.
+
+(* uncatchable_runs_nothing on I, partial: for EVERY VM state and try stack, unwinding an uncatchable payload
+   emits no event if the interrupt flag is set or no iterator is open *)
+Theorem uncatchable_runs_nothing_partial : forall p fs st, quiet st ->
+  match handle_throw None p st fs with
+  | UncOut q st' => q = p /\ trace st' = trace st
+  | Crashed => True
+  | _ => False
+  end.
+Proof. exact ProofsI.handle_throw_unc_quiet. Qed.
+
+Theorem interrupt_runs_nothing : forall code st,
+  nth_error code (pc st) = Some (IUnc PInterrupt) ->
+  match vm_step code st with
+  | UncOut q st' => q = PInterrupt /\ trace st' = trace st
+  | Crashed => True
+  | _ => False
+  end.
+Proof. exact ProofsI.interrupt_runs_nothing. Qed.
+
+(* the VM's finally dispatch: leaveTry parks pc+1 in finallyRet and leaveFinally resumes there, frame popped *)
+Theorem leaveTry_leaveFinally_roundtrip : forall code st tf r fp,
+  nth_error code (pc st) = Some ILeaveTry -> trys st = tf :: r -> f_fin tf = Some fp ->
+  exists st1, vm_step code st = Running st1 /\ pc st1 = fp /\ trace st1 = trace st /\
+    exists tf', trys st1 = tf' :: r /\ f_catch tf' = None /\ f_fin tf' = None /\ f_ret tf' = Some (S (pc st)) /\
+    forall code2 st2, nth_error code2 (pc st2) = Some ILeaveFinally -> trys st2 = tf' :: r -> f_exc tf' = None ->
+      exists st3, vm_step code2 st2 = Running st3 /\ pc st3 = S (pc st) /\ trys st3 = r /\ trace st3 = trace st2.
+Proof. exact ProofsI.leaveTry_leaveFinally_roundtrip. Qed.
+
+Print Assumptions finally_exactly_once.
+Print Assumptions finally_exactly_once_innermost_first.
+Print Assumptions finally_overrides.
+Print Assumptions iterator_closed_once.
+Print Assumptions completion_value_rules.
+Print Assumptions uncatchable_runs_nothing_S.
+Print Assumptions trace_in_syntax.
+Print Assumptions finally_throw_not_caught_by_own_catch.
+Print Assumptions pending_return_value_refuted.
+Print Assumptions finally_nested_break_value_refuted.
+Print Assumptions caught_throw_stale_value_refuted.
+Print Assumptions nested_branch_loses_value_refuted.
+Print Assumptions uncatchable_runs_nothing_refuted.
+Print Assumptions uncatchable_runs_nothing_partial.
+Print Assumptions interrupt_runs_nothing.
+Print Assumptions leaveTry_leaveFinally_roundtrip.
